@@ -356,7 +356,7 @@ class Formatter:
 
     def _exists(self, value, prec):
         sql = self.dispatch(value, precedence["exists"])
-        if "from" in value:
+        if isinstance(value, dict) and "from" in value:
             return f"EXISTS {sql}"
         return f"{sql} IS NOT NULL"
 
